@@ -164,7 +164,8 @@ record (what the loader works on), `toC cs` gives the change back (what the rece
 
 /-- **apply_attaches_all**, full strength: a receiver tree (`AnySync.Tree.T`, nothing pending) that holds what the
 loader withholds, what lies before the common snapshot, and for every stored change its snapshot unless that is
-stored earlier (a snapshot is an ancestor), is fed the batches of `respond` in order through `add` (= `Tree.Add`);
+stored earlier (a snapshot is an ancestor) - every stored change it does not hold having previous ids (only the
+root has none) - is fed the batches of `respond` in order through `add` (= `Tree.Add`);
 afterwards it holds every sent change. -/
 def C09_apply_attaches_all_full : Prop :=
   ∀ (cs : List (Change × Nat)) (theirHeads : List Nat) (max : Nat) (t : T),
@@ -172,12 +173,13 @@ def C09_apply_attaches_all_full : Prop :=
     (∀ x ∈ removedSet (cs.map toS) theirHeads, t.has x = true) →
     (∀ c ∈ cs.map toS, ∀ p ∈ c.prevs, p ∉ (cs.map toS).map (·.id) → t.has p = true) →
     (∀ l1 p l2, cs = l1 ++ p :: l2 → t.has p.1.snap = true ∨ p.1.snap ∈ l1.map (·.1.id)) →
+    (∀ p ∈ cs, p.1.prevs ≠ [] ∨ t.has p.1.id = true) →
     ∀ c ∈ flat (respond (cs.map toS) theirHeads max),
       ((respond (cs.map toS) theirHeads max).foldl (fun t b => (add t (b.changes.map (toC cs))).tree) t).has c.id = true
 
 theorem apply_attaches_all : C09_apply_attaches_all_full :=
-  fun cs theirHeads max t hlin hnd hroot hun hrm hbefore hsnap =>
-    apply_attaches cs theirHeads max t hlin hnd hroot hun hrm hbefore hsnap
+  fun cs theirHeads max t hlin hnd hroot hun hrm hbefore hsnap hpar =>
+    apply_attaches cs theirHeads max t hlin hnd hroot hun hrm hbefore hsnap hpar
 
 /-- non-vacuity: a receiver holding only the root is sent the diamond in batches of two and ends up with all of it -/
 example :
